@@ -29,6 +29,8 @@ func runC04(c *Ctx) {
 	c.Rule("C04.O7", "E4", "after EPOLL_CTL_ADD that follows a user callback, the success path arms write interest under the mutex on the queue-non-empty edge", 1)
 
 	c.Rule("C04.O9", "E4", "flush gives up with a non-empty queue only when the kernel refused bytes: every success return is on the queue-empty edge or on the EAGAIN edge (edge-triggered mode delivers no further event otherwise)", 1)
+	c.Rule("C04.O10", "E4", "the disarm helper clears isWAdded on every path on which it found the flag set on an open connection: the flag may never say 'armed' after flush has drained the queue", 1)
+	c.Rule("C04.O11", "E4", "flush makes progress: an explicit success return of a head-writer (buffer / file) is behind the pop of the head on every path, so the drain loop cannot see the same finished head again", 1)
 	c.Rule("C04.O8", "E4", "one-shot mode: every dispatch of an event for a live connection re-registers the descriptor (ResetPollerEvent, the async read job, a custom OnRead, or close) before the next event is awaited", 1)
 
 	core := c.Core()
@@ -209,6 +211,83 @@ func runC04(c *Ctx) {
 			bad = fmt.Sprintf("expected exactly one call of flush, found %d", n)
 		}
 		c.Cond(bad == "", "C04.O5", "callers of flush", "", "readWriteLoop on the write-event edge", bad)
+	}
+
+	// ------------------------------------------------------------------ O11
+	if fn := c.Fn("C04.O11", "(*nbio.Conn).flush"); fn != nil {
+		bad := ""
+		n := 0
+		for _, g := range ir.Closures(fn) {
+			if len(g.Signature.Results().String()) == 0 || g.Signature.Results().Len() != 1 || g.Signature.Results().At(0).Type().String() != "error" {
+				continue
+			}
+			gi := c.P.Info(g)
+			isPop := func(in ssa.Instruction) bool {
+				st, ok := in.(*ssa.Store)
+				if !ok {
+					return false
+				}
+				fa, ok := st.Addr.(*ssa.FieldAddr)
+				if !ok || c.P.FieldKey(fa) != fConnWriteList {
+					return false
+				}
+				sl, ok := ir.Resolve(st.Val).(*ssa.Slice)
+				if !ok || sl.Low == nil {
+					return false
+				}
+				k, isK := ir.ConstInt(sl.Low)
+				return isK && k == 1
+			}
+			first := g.Blocks[0].Instrs[0]
+			vis, _ := gi.Reach([]ssa.Instruction{first}, isPop)
+			for _, r := range gi.Returns() {
+				if !ir.IsNilConst(ir.RetVals(r)[0]) {
+					continue
+				}
+				n++
+				if vis[r] {
+					bad = c.P.FuncName(g) + " can report success at " + c.Pos(r) + " without having removed the head of the queue (e.g. a queued file range with nothing left to send): flush's loop sees the same head again and spins forever holding the connection mutex"
+				}
+			}
+		}
+		if n == 0 && bad == "" {
+			bad = "no explicit success return of a head-writer found"
+		}
+		c.Cond(bad == "", "C04.O11", fnKey(c.P, fn, "head-writers pop before reporting success"), c.FnPos(fn), fmt.Sprintf("%d explicit success return(s), all behind the pop", n), bad)
+	}
+
+	// ------------------------------------------------------------------ O10
+	if connDisarm != nil {
+		fi := c.P.Info(connDisarm)
+		isClear := func(in ssa.Instruction) bool {
+			st, ok := in.(*ssa.Store)
+			if !ok {
+				return false
+			}
+			fa, ok := st.Addr.(*ssa.FieldAddr)
+			if !ok || c.P.FieldKey(fa) != fConnIsWAdded {
+				return false
+			}
+			k, isK := ir.ConstBool(st.Val)
+			return isK && !k
+		}
+		skip := func(i *ssa.If, k int) bool {
+			f, set, ok := c.P.BoolFieldTest(i.Cond, k == 0)
+			if !ok {
+				return false
+			}
+			// exits that may keep the flag: connection closed, or flag already clear
+			return (f == fConnClosed && set) || (f == fConnIsWAdded && !set)
+		}
+		first := connDisarm.Blocks[0].Instrs[0]
+		vis, _ := fi.ReachOpt([]ssa.Instruction{first}, isClear, skip)
+		bad := ""
+		for _, r := range fi.Returns() {
+			if vis[r] {
+				bad = c.P.FuncName(connDisarm) + " can return at " + c.Pos(r) + " with the flag still set on an open connection: the registration is (or is about to be) read-only while the flag says armed, so the next backlog's modWrite is skipped and never flushed"
+			}
+		}
+		c.Cond(bad == "", "C04.O10", fnKey(c.P, connDisarm, "flag cleared on every path"), c.FnPos(connDisarm), "only the closed / already-clear exits keep the flag", bad)
 	}
 
 	// ------------------------------------------------------------------ O9
